@@ -267,3 +267,54 @@ Fixpoint fsize_fault (lim : nat) (bufs : list (list N)) (i : nat) : fault :=
   | b :: r => if Nat.leb (length b) lim then fsize_fault (lim - length b) r (S i)
               else WriteFails i lim
   end.
+
+(* ---- the discipline of a Save, as a scanner over system calls (FSDiscipline proves that
+   every trace it accepts is atomic at every stop point; C19Check applies it to the calls
+   strace recorded).  [sp_cont]: content of the spool file when the scanner knows it;
+   [sp_sync]: an fsync covers all of it. ---- *)
+
+Record dst := mkdst { sp_cont : option (list N) ; sp_sync : bool }.
+
+Definition dst0 : dst := mkdst None false.
+
+Definition touchesb (n : fname) (c : syscall) : bool := existsb (name_eqb n) (touches c).
+
+Definition cont_is (s : dst) (new : list N) : bool :=
+  match sp_cont s with Some x => list_eqb x new | None => false end.
+
+Definition dstep (kn sp : fname) (new : list N) (s : dst) (c : syscall) : option dst :=
+  if touchesb kn c then
+    match c with
+    | Rename a b =>
+        if name_eqb a sp && name_eqb b kn && sp_sync s && cont_is s new
+        then Some (mkdst None false) else None
+    | Close _ | Rmdir _ => Some s
+    | _ => None
+    end
+  else if touchesb sp c then
+    match c with
+    | Creat _ => Some (mkdst (Some []) false)
+    | Write _ b => Some (mkdst (option_map (fun x => x ++ b) (sp_cont s)) false)
+    | Fsync _ => Some (mkdst (sp_cont s) true)
+    | Close _ | Rmdir _ => Some s
+    | _ => Some (mkdst None false)
+    end
+  else Some s.
+
+Fixpoint disciplined (kn sp : fname) (new : list N) (s : dst) (l : list syscall) : bool :=
+  match l with
+  | [] => true
+  | c :: r => match dstep kn sp new s c with
+              | Some s' => disciplined kn sp new s' r
+              | None => false
+              end
+  end.
+
+(* the scanner's final state: [Some true] = the rename happened *)
+Fixpoint renamed_in (kn sp : fname) (l : list syscall) : bool :=
+  match l with
+  | [] => false
+  | Rename a b :: r => (name_eqb a sp && name_eqb b kn) || renamed_in kn sp r
+  | _ :: r => renamed_in kn sp r
+  end.
+
